@@ -210,49 +210,51 @@ def check(repo, rep, tier):
             r1.violation(where, fi.fq, norm(fi.node.body)[:200], "; ".join(why), "hook/" + hook)
 
     # ---------------- R-C18-2
-    r2 = rep.rule("R-C18-2", "decision table of the maybe() wrapper", floor=10)
+    r2 = rep.rule("R-C18-2", "decision table of the maybe() wrapper", floor=14)
     maybe = repo.fn(AM, "maybe")
     inner = [f for f in maybe.children.values()]
     if not inner:
         raise AnalysisError("maybe() has no inner function")
     inner = inner[0]
     param = maybe.params[0]
-    ifs = [s for s in inner.node.body if isinstance(s, ast.If)]
-    calls_outside = [s for s in inner.node.body if not isinstance(s, ast.If) and any(
-        norm(c.func) == param for c in calls_in(s))]
-    if len(ifs) != 1 or calls_outside:
+    from ..hints import paths_to
+    fcalls = [c for c in ast.walk(inner.node) if isinstance(c, ast.Call) and norm(c.func) == param]
+    if len(fcalls) != 1:
         r2.violation(inner.loc(), inner.fq, norm(inner.node.body)[:200],
-                     "the wrapped function is not called under exactly one guard", "maybe/shape")
+                     "the wrapped function is called %d times in the wrapper (expected exactly one guarded call)" % len(fcalls),
+                     "maybe/shape")
     else:
-        iff = ifs[0]
-        in_true = any(norm(c.func) == param for s in iff.body for c in calls_in(s))
-        in_false = any(norm(c.func) == param for s in iff.orelse for c in calls_in(s))
+        paths = paths_to(inner.node, fcalls[0])
         ec_attr = recorded.get("sys.exit", ("exitcode", ""))[0]
         ex_attr = recorded.get("sys.excepthook", ("exception", ""))[0]
         inst = inst_name or "override"
         o = _Obj()
         rows = []
-        for ec_label, ec in (("None", None), ("0", 0), ("3", 3), ("'msg'", "msg"), ("object", o)):
+        guard_txt = " | ".join(" & ".join(("" if pol else "not ") + "(" + norm(t) + ")" for t, pol in p_.conds) or "always" for p_ in paths)
+        # abstract exit codes: what sys.exit(x) turns into -- None/0 -> status 0; any other object -> non-zero status
+        # (falsy non-zero objects such as '' or [] included: CPython prints them and exits with status 1)
+        for ec_label, ec in (("None", None), ("0", 0), ("3", 3), ("'msg'", "msg"), ("object", o), ("''", ""), ("[]", [])):
             for ex_label, ex in (("None", None), ("raised", RuntimeError("x"))):
                 env = {"%s.%s" % (inst, ec_attr): ec, "%s.%s" % (inst, ex_attr): ex, "None": None}
+                runs = False
                 try:
-                    v = bool(mini_eval(iff.test, env))
+                    for p_ in paths:
+                        if all(bool(mini_eval(t, env)) == pol for t, pol in p_.conds):
+                            runs = True
                 except KeyError as e:
-                    r2.undecided(inner.loc(iff), inner.fq, norm(iff.test), "guard uses a construct outside the table "
-                                                                         "evaluator: %s" % e)
+                    r2.undecided(inner.loc(), inner.fq, guard_txt[:160], "guard uses a construct outside the table evaluator: %s" % e)
                     rows = None
                     break
-                runs = (v and in_true) or ((not v) and in_false)
-                want = (ec is None or ec == 0) and ex is None
+                want = (ec is None or (isinstance(ec, int) and ec == 0)) and ex is None
                 rows.append((ec_label, ex_label, runs, want))
             if rows is None:
                 break
         for ec_label, ex_label, runs, want in rows or []:
             term = "exitcode=%s exception=%s -> proving step %s" % (ec_label, ex_label, "runs" if runs else "skipped")
             if runs == want:
-                r2.ok(inner.loc(iff), inner.fq, term)
+                r2.ok(inner.loc(fcalls[0]), inner.fq, term)
             else:
-                r2.violation(inner.loc(iff), inner.fq, term + " (guard: %s)" % norm(iff.test),
+                r2.violation(inner.loc(fcalls[0]), inner.fq, term + " (reached when: %s)" % guard_txt[:200],
                              "proving step %s for exitcode=%s, exception=%s" % (
                                  "runs although the script failed" if runs else "is skipped although the script succeeded",
                                  ec_label, ex_label), "table/%s/%s" % (ec_label, ex_label))
